@@ -140,6 +140,16 @@ def pyEnc (m : List Byte) : List Byte :=
   let st := m.foldl pyStep ([1], 1)
   st.1.set (st.1.length - st.2) (UInt8.ofNat st.2) ++ [0]
 
+/-! ### the coding numbers (`enum EncodingType` of convert.h: Command = 1, Cobs = 2, CobsInline = 3, Compress = 4 as flag) -/
+
+/-- coding number of a COBS framing -/
+def Variant.coding : Variant → Nat
+  | .cobs => 2 | .cobsR => 3 | .zpe => 6 | .zpeR => 7
+
+/-- the COBS framing selected by a coding number (1 = command text is not a `Variant`) -/
+def Variant.ofCoding : Nat → Option Variant
+  | 2 => some .cobs | 3 => some .cobsR | 6 => some .zpe | 7 => some .zpeR | _ => none
+
 /-- `mpt.py:encode_command`: raises (`none`) on an inline zero byte, else appends the delimiter -/
 def pyCmd (m : List Byte) : Option (List Byte) :=
   if (0 : Byte) ∈ m then none else some (m ++ [0])
